@@ -39,6 +39,8 @@ def check(ctx):
     ctx.rule("C06-E", "colspan remap is total given colspan >= 1; writers of colspan enumerated")
     for rid, fn in (("C06-A", rule_a), ("C06-B", rule_b), ("C06-C", rule_c), ("C06-D", rule_d), ("C06-E", rule_e)):
         ctx.guard(rid, fn)
+    from .. import widths
+    ctx.guard("C06-C", widths.rule_min_size_matches_shrink, "C06-C")
 
 
 def _forms(b, l):
